@@ -237,17 +237,20 @@ class Builder:
         if op["j"] in self.pyjobs:
             # PythonJob: the same uses, as arguments of call() in the four shapes handle_args distinguishes
             pos, kw = [], {}
-            for n, k in enumerate(sorted(args)):
-                shape = (n + self.seed + op["j"]) % 4
-                if shape == 0:
-                    pos.append(args[k])
-                elif shape == 1:
-                    kw[f"k{n}"] = args[k]
-                elif shape == 2:
-                    pos.append([1, (args[k],)])
+            keys = sorted(args)
+            # call() handles positional arguments before keyword arguments: the first uses (in token order) become positional, the rest
+            # keyword arguments, so that the uses are processed in the order of the command's tokens (what the specification models)
+            npos = (len(keys) + ((self.seed + op["j"]) % 2)) // 2
+            shapes = []
+            for n, k in enumerate(keys):
+                nested = (n + self.seed + op["j"]) % 2 == 1
+                if n < npos:
+                    shapes.append(2 if nested else 0)
+                    pos.append([1, (args[k],)] if nested else args[k])
                 else:
-                    kw[f"k{n}"] = {"x": [args[k]]}
-            ev["shapes"] = [(n + self.seed + op["j"]) % 4 for n in range(len(args))]
+                    shapes.append(3 if nested else 1)
+                    kw[f"k{n}"] = {"x": [args[k]]} if nested else args[k]
+            ev["shapes"] = shapes
             self.jobs[op["j"]].call(_pyfn, *pos, **kw)
             return
         parts = [t["s"] if t["t"] == "lit" else str(args[k]) for k, t in enumerate(toks)]
